@@ -5,6 +5,7 @@ C18 line-protocol driver.
   orerr <inp> <e><u>  <env>        ReplaceOrErr(errOnEmpty=e, errOnUnknown=u), e,u ∈ {0,1}
   func  <inp> <fid>   <env>        ReplaceFunc with harness function number fid
   http  <bodyTmpl> <hdrTmpl> <varTmpl> <X-In> <q> <path> <secret>   end-to-end: vars middleware + static_response
+  http2 <bodyTmpl> <s|l> <varTmpl> <X-In1> <q1> <X-In2> <q2> <secret>   two requests through the SAME vars+respond handler instances
   httpm <key> <matchVal> <varV> <X-In> <q> <secret>   vars matcher result + vars_regexp capture group 1
   cost  <mode> <n> <mult>          timing witness (answer is the constant `cost`)
 env = `.` or `k:v;k:v;…` (hex fields).  Answers: `ok <hex>` | `err:<class>` | `panic`.
@@ -69,6 +70,14 @@ def handle : List String → String
       match serve b h v ⟨x, q, p, s, []⟩ with
       | some (ob, oh) => "ok " ++ Hex.encode ob ++ " " ++ Hex.encode oh
       | none => "panic"
+    | _, _, _, _, _, _, _ => "bad-op"
+  | ["http2", body, kind, var, x1, q1, x2, q2, secret] =>
+    match Hex.decode body, Hex.decode var, Hex.decode x1, Hex.decode q1, Hex.decode x2, Hex.decode q2, Hex.decode secret with
+    | some b, some v, some x1, some q1, some x2, some q2, some s =>
+      if kind != "s" && kind != "l" then "bad-op" else
+      match serveBody b (kind == "l") v ⟨x1, q1, [47], s, []⟩, serveBody b (kind == "l") v ⟨x2, q2, [47], s, []⟩ with
+      | some o1, some o2 => "ok " ++ Hex.encode o1 ++ " " ++ Hex.encode o2
+      | _, _ => "panic"
     | _, _, _, _, _, _, _ => "bad-op"
   | ["httpm", key, mval, varv, x, q, secret] =>
     match Hex.decode key, Hex.decode mval, Hex.decode varv, Hex.decode x, Hex.decode q, Hex.decode secret with
